@@ -22,6 +22,7 @@ class StepLoop(asyncio.SelectorEventLoop):
         self._vt = 0.0
         self.is_run_step = lambda h: False
         self.active = lambda: True
+        self.is_startup = lambda h: False     # the very first handle of the run task (before its first step)
         self.point = 0
         self.pick = lambda p, kind: None      # -> callable to run in the helper thread, or None
         self.on_point = None                  # optional observer (p, kind)
@@ -131,6 +132,16 @@ class StepLoop(asyncio.SelectorEventLoop):
         if self._ready:
             self._blocked_point_done = False
             h = self._ready[0]
+            if not h._cancelled and not self._inflight and self.is_startup(h):
+                # scheduling point 'startup': the run task has been created but has not taken its first step (the engine's
+                # state is still 'idle'); it does not consume a numbered point
+                if self.on_point:
+                    self.on_point(-1, "startup")
+                fn = self.pick(-1, "startup")
+                if fn is not None:
+                    self._held = self._ready.popleft()
+                    self._start_injection(fn, -1, "startup")
+                    return
             if not h._cancelled and not self._inflight and self.is_run_step(h) and self.active():
                 p = self.point
                 self.point += 1
